@@ -721,6 +721,13 @@ func (p *Program) execSatisfies(e *AbsExec, g GuardMatch, when int, before bool,
 		}
 		ca.If = in
 		truth := tv != ca.Neg
+		if ca.Alt != nil {
+			ca.Alt.If = in
+			p.noteLift(ca.Alt)
+			if g(ca.Alt, tv != ca.Alt.Neg) {
+				return true
+			}
+		}
 		if g(ca, truth) {
 			if os.Getenv("JKL_DEBUG_ABS") != "" {
 				fmt.Fprintf(os.Stderr, "absmatch: %s=%v @%s\n", p.Describe(ca, true), truth, p.InstrPos(in))
@@ -1200,6 +1207,11 @@ func (p *Program) ExecConditions(e *AbsExec, when int) []ExecCond {
 		ca := p.normVal(v, false)
 		ca.If = in
 		out = append(out, ExecCond{ca, tv != ca.Neg})
+		if ca.Alt != nil {
+			ca.Alt.If = in
+			p.noteLift(ca.Alt)
+			out = append(out, ExecCond{ca.Alt, tv != ca.Alt.Neg})
+		}
 	}
 	for v, tv := range e.Vals {
 		if when > 0 && e.Seq[v] > when {
